@@ -40,12 +40,23 @@ position (every position of the history), one with a boundary after every op and
 (thorough: all pairs of positions as well) - e.g. attribute created in an older container, overwritten
 and deleted within one later container.
 
+Values: dataset values are plain strings (token `t<n>`) or TYPED values (`TYPED`: numpy scalars / small arrays whose
+stored bytes lie around the byte 0x7f of the IH5 deletion marker - int8 / uint8 126, 127, 128, the 1-character byte strings
+~ DEL \x80, booleans, wider integers / strings / opaque values that contain the byte; the marker np.void(b"\x7f") itself is
+excluded: C17), given as `g[p] = <numpy scalar>`, `create_dataset(p, data=<numpy scalar>)` or `create_dataset(p, data=<python
+value>, dtype=...)`; attribute values are those of `ctr_common.ATTR_VALS` plus the typed ones. Half of the container
+histories get typed values (`add_typed_datasets`, `type_values`), half get TRANSIENTS (`add_transients`): the first object of
+an otherwise unused schema attached and removed again, a child created and deleted again, within one or two ops.
+
 Oracle (needs no model): every variant is run on the REAL code (MetadorContainer over
 h5py.File / IH5Record / IH5MFRecord) in one worker; after every base op and at the end the
 user-visible observation made through the public container API — ok/err outcome (exception
 classes reduced to succeed/fail), data + attributes of every user node, attached metadata objects
 as canonical JSON, get/query answers for the probe items of the step — must equal the
-reference's. An inserted boundary op that raises is a difference as well.
+reference's. An inserted boundary op that raises is a difference as well. The observation includes values WITH their
+type (numpy dtype), the sizes the dict-like interface reports (`len()` of every group - through the wrapper and of the
+driver's group object `mc.__wrapped__[p]` -, of every attribute manager and of every `node.meta`) and the container-level
+listings `mc.metador.schemas` / `.schemas.packages` (keys, len) with a container-wide `query` per listed schema.
 
 Correspondence: every variant is also compared, step by step, with the Lean container model
 (`drv_ctr`: status, canonical raw dump with uuids renamed by first appearance, get/query
@@ -310,7 +321,8 @@ class _Run9(C._Run):
         def attrs(n):
             try:
                 a = n.attrs
-                return {k: enc9(a[k]) for k in sorted(a.keys())}, tryf(lambda: len(a))
+                ks = sorted(a.keys())
+                return {k: enc9(a[k]) for k in ks}, [tryf(lambda: len(a)), tryf(lambda: [k for k in ks if k not in a])]
             except Exception as e:  # noqa: BLE001
                 return {"!": "err:" + type(e).__name__}, None
 
@@ -353,7 +365,8 @@ class _Run9(C._Run):
                     g = mc[p]
                     ks = sorted(g.keys())
                     listing[p] = ks
-                    lens[p].update(group=len(g), driver=tryf(lambda: len(raw[p])))
+                    lens[p].update(group=len(g), driver=tryf(lambda: len(raw[p])),
+                                   listed_not_in=tryf(lambda: [x for x in ks if x not in g]))  # keys() and `in` agree: []
                 except Exception as e:  # noqa: BLE001
                     listing[p] = "err:" + type(e).__name__
         return dict(data=data, attrs=at, meta=md, listing=listing, lens=lens, toc=self.toc_view(queries))
@@ -1269,8 +1282,8 @@ def compare(case, ir, mo):
 
 
 # --------------------------------------------------------------------------- run
-N_CASES = {"quick": 40, "thorough": 320}
-N_ATTR = {"quick": 10, "thorough": 40}
+N_CASES = {"quick": 36, "thorough": 280}
+N_ATTR = {"quick": 9, "thorough": 36}
 
 
 def run(ctx):
@@ -1285,9 +1298,14 @@ def run(ctx):
                 "subsets (thorough: all pairs). All over installed schemas and the harness-registered vt.* family, executed in K variants "
                 "on the REAL code: variant 0 = h5py.File; others = IH5Record / IH5MFRecord / h5py.File with commit_patch+create_patch "
                 "boundaries and close/reopen points inserted at random positions, at none, after every op, directly one after the other, and "
-                "targeted between dependent ops (create|attach, copy|move, delete|re-create). Oracle: after EVERY base op and at the end the "
-                "user-visible observation through the public API (ok/err, data, attributes, metadata objects as canonical JSON, listings, "
-                "sampled get/query answers) of every variant equals the reference's. Correspondence: every variant vs the Lean container "
+                "targeted between dependent ops (create|attach, copy|move, delete|re-create). VALUES of datasets / attributes: strings, ints, "
+                "arrays, opaque bytes and TYPED numpy scalars stored as one or two bytes around 0x7f (int8/uint8 126,127,128, S1 ~ DEL \\x80, bool, "
+                "wider values containing the byte; not the deletion marker itself), given as numpy scalar or via create_dataset(data=, dtype=). "
+                "TRANSIENTS: first object of an unused schema attached and removed, child created and deleted, within one or two ops (a boundary "
+                "before, none between). Oracle: after EVERY base op and at the end the "
+                "user-visible observation through the public API (ok/err, data with dtype, attributes, metadata objects as canonical JSON, "
+                "listings, len() of every group / attribute manager / node.meta, mc.metador.schemas and .packages listings with a container-wide "
+                "query per listed schema, sampled get/query answers) of every variant equals the reference's. Correspondence: every variant vs the Lean container "
                 "model drv_ctr (status, raw dump up to uuid renaming, get/query answers) and model output equal across variants. "
                 "Non-trivial = tagged (boundary between dependent ops, reopen after failed op, copy/move of subtree with metadata or "
                 "attributes across a boundary, delete-then-recreate across a boundary, attribute overwritten/deleted across a boundary ...).")
@@ -1301,6 +1319,11 @@ def run(ctx):
         "path-based); `require_group` / `require_dataset` (scalar string, matching shape and dtype) are the driver-level composition "
         "'existing node of that kind: nothing changes, else create_*' (drv_ctr lines rgrp / rds); an op is never issued on a wrapper of "
         "a node that the op itself deletes or moves (stale object handle, not a path-level operation)",
+        "typed dataset values are opaque content for the model (the token); histories with typed values do not use `require_dataset` "
+        "(h5py refuses an existing dataset whose dtype / shape does not fit the request; IH5 used to return it unchecked - F36, "
+        "repaired in /repo; the container model has no dtype notion, so the histories still only require with matching shape and dtype)",
+        "`len(mc.__wrapped__[p])` (the driver's own group object, internal metadata directories included) is compared between drivers "
+        "only - the container code lays out both drivers identically",
         "Lean: `reopen_unobservable` (Props/C09Coherent.lean) holds for every well-formed schema environment (WFEnv) and every history "
         "without a move to an EMPTY node name (OpOK; not expressible in HDF5); it rests on `reopen_unobservable_of_coherent_on` + the C06 "
         "invariant (`cacheCoherent_ok`). Reopen is unobservable up to `CachesEqv` of the caches (literal equality is false in the model: "
@@ -1336,6 +1359,8 @@ def run(ctx):
         ctx.dist["family:" + c.get("family", "container-history")] += 1
         for i, op in enumerate(c["base"]):
             ctx.dist["op:" + op[0]] += 1
+            if op[0] in ("ds", "sattr") and is_typed(op[-1]):
+                ctx.dist["typed-value:%s:%s" % (op[0], "stored-as-0x7f" if op[-1] in TYPED_NEAR[:3] else "near" if op[-1] in TYPED_NEAR else "other")] += 1
             if op[0] in SHAPED_OPS:
                 ctx.dist["call-shape:" + ":".join(call_name(op, call_of(c, i)).split(":")[:2])] += 1
         for v in c["variants"]:
